@@ -125,7 +125,7 @@ def run(ctx):
     if gss:
         v = FnView.get(P, gss)
         refusal(ctx, gss, "SEP", "G13:duplicate-identifiers",
-                [("set.len!=len", cmp_fact("eq", length(lambda t: mentions(t, call("collect")) and mentions(t, arg(5))),
+                [("set.len!=len", cmp_fact("eq", length(dedup_of(ctx.prog, gss, FnView.get(ctx.prog, gss), arg(5))),
                                            length(arg(5)), False))], ok_sinks(gss))
         reductions(ctx, gss.key, adaptors={}, min_loops=1)
         pushes = [(bb, v.call_args(bb)) for (bb, t, ci) in gss.calls() if ci and ci.get("name") == "push"]
